@@ -15,13 +15,15 @@ theorem h_sees_user_coordinates : ∀ c ∈ Gen.hCalls,
      (c.func = "util.py:eval_least_squares_with_regularisation" ∧ c.arg = "x")) := by
   decide +kernel
 
-/-- the five places in model.py that store an objective value evaluate `h` at the point they store: the initial point,
-    `xbase + x` for the point written by `change_point` / `add_new_point`, `xbase + points[k]` when a sample is added to row `k`,
-    the absolute point handed to `save_point` -/
+/-- the five places in model.py that store an objective value evaluate `h` at the point AS IT IS USED (evaluated, returned):
+    the initial point; `as_absolute_coordinates(x)` — clipped to the bounds / projected — for the point written by
+    `change_point` / `add_new_point`; `xpt(k, abs_coordinates=True)` when a sample is added to row `k`; the absolute point
+    handed to `save_point`.  (Pinned and until fix "h at the point as used": `self.xbase + x`, the raw stored coordinates, which
+    under projections or next to a bound is not the point the residuals were evaluated at.) -/
 theorem model_h_at_stored_point :
     (Gen.hCalls.filter (fun c => c.func.startsWith "model.py:")).map (fun c => (c.func, c.point)) =
-    [("model.py:__init__", "x0"), ("model.py:change_point", "self.xbase + x"),
-     ("model.py:add_new_sample", "self.xbase + self.points[k, :]"), ("model.py:add_new_point", "self.xbase + x"),
+    [("model.py:__init__", "x0"), ("model.py:change_point", "self.as_absolute_coordinates(x)"),
+     ("model.py:add_new_sample", "self.xpt(k, abs_coordinates=True)"), ("model.py:add_new_point", "self.as_absolute_coordinates(x)"),
      ("model.py:save_point", "xabs")] := by
   decide +kernel
 
